@@ -59,6 +59,8 @@ use Reply::*;
 
 mod structs;
 pub(crate) use structs::*;
+#[cfg(irc_verif)]
+mod verif;
 
 pub(crate) struct MainState {
     config: MainConfig,
